@@ -285,19 +285,23 @@ def run_op(db, T, op, arg):
     else: raise ValueError(op)
 
 
+LOCK_AFTER_OP = []
+
+
 def run_body(db, T, shape, ops):
     """One db_session. Returns (exception enum that left the session, per-op outcomes)."""
     from pony import orm
     outcomes = []
     exc = None
+    del LOCK_AFTER_OP[:]
     try:
         with orm.db_session(**session_kwargs(shape)):
             for op, catch, arg in ops:
                 try:
                     run_op(db, T, op, arg)
-                    outcomes.append('ok')
+                    outcomes.append('ok'); LOCK_AFTER_OP.append(CTL.lock_state())
                 except BaseException as e:
-                    outcomes.append(exc_enum(e))
+                    outcomes.append(exc_enum(e)); LOCK_AFTER_OP.append(CTL.lock_state())
                     if not catch: raise
     except BaseException as e:
         exc = e
@@ -416,7 +420,7 @@ def run_session_case(case, workdir):
         try:
             for shape, ops in sessions:
                 exc, outcomes = run_body(db, T, shape, ops)
-                out['sessions'].append({'exc': exc, 'outcomes': outcomes, 'lock_after': CTL.lock_state(), 'calls': CTL.n})
+                out['sessions'].append({'exc': exc, 'outcomes': outcomes, 'lock_after': CTL.lock_state(), 'calls': CTL.n, 'lock_after_op': list(LOCK_AFTER_OP)})
         finally:
             CTL.armed = False
         out['after'] = observe_after(db)
